@@ -129,6 +129,8 @@ SPEC = [
     (r"FriOptions::num_fri_layers$", r".*", "folding_factor in {2,4,8,16}; remainder degree <= 255 and blowup <= 128"),
     (r"fri::utils::map_positions_to_indexes$", r"DivisionByZero", "num_partitions = 2^k >= 1 and folding factor >= 2"),
     (r"fri::utils::map_positions_to_indexes$", r"Overflow", "partition_idx < num_partitions and local_idx < partition_size: the result is below the target domain size"),
+    (r"fri::folding::fold_positions$", r"RemainderByZero", "target domain = layer domain / folding factor >= 1: FriVerifier::new rejects (DegreeTruncation) unless the degree bound of every verified layer is a non-zero multiple of the folding factor, and the layer domain is that bound times the blowup factor",
+     {"kind": "pred-guard", "func": "winter_fri::verifier::FriVerifier::<E, C, H, R, V>::new", "pred": "is_multiple_of", "count": 1}),
     (r"fri::folding::fold_positions$", r".*", "folding factor >= 2"),
     (r"FriVerifier::<E, C, H, R, V>::new$", r"Overflow:Mul", "max_poly_degree < 2^32 (trace length bound) and blowup <= 128"),
     (r"FriVerifier::<E, C, H, R, V>::new$", r"call:with_capacity", "capacity = number of commitments parsed from the proof (bytes already held)"),
@@ -138,6 +140,8 @@ SPEC = [
     (r"FriVerifier::<E, C, H, R, V>::verify_generic$", r"Overflow:Sub", "DegreeTruncation / RemainderDegreeMismatch payloads: max_degree_plus_1 >= 1 (it is (max_poly_degree + 1) / N^k with exact divisions)"),
     (r"FriVerifier::<E, C, H, R, V>::verify_generic::\{closure#0\}$", r"Overflow:Mul", "domain_size / N * i < domain_size"),
     (r"FriVerifier::<E, C, H, R, V>::verify_generic::\{closure#2\}$", r"call:unwrap", "collecting exactly N folding roots into [E; N]"),
+    (r"fri::verifier::get_query_values(::\{closure#\d+\})*$", r"(DivisionByZero|RemainderByZero)#(position|row_length)?#", "row_length = layer domain / N >= 1: FriVerifier::new rejects (DegreeTruncation) unless the degree bound of every verified layer is a non-zero multiple of the folding factor",
+     {"kind": "pred-guard", "func": "winter_fri::verifier::FriVerifier::<E, C, H, R, V>::new", "pred": "is_multiple_of", "count": 1}),
     (r"fri::verifier::get_query_values$", r"DivisionByZero", "N is a const generic in {2,4,8,16}"),
     (r"fri::verifier::get_query_values$", r"call:unwrap|BoundsCheck", "every position folds to one of folded_positions (fold_positions of the same list) and values has one row per folded position (read_layer_queries checked the opening against them)"),
     (r"DefaultVerifierChannel<E, H, V> as .*VerifierChannel<E>>::", r".*", "test/standalone channel: not used by winter_verifier::verify (which uses winter_verifier::channel::VerifierChannel)"),
@@ -178,7 +182,7 @@ def main():
                     hit = spec
                     break
             if hit:
-                e = {"key": r["key"], "alt": r["akey"], "reason": hit[2]}
+                e = {"key": r["key"], "alt": r["akey"], "kalt": r["kkey"], "nkind": r["nkind"], "reason": hit[2]}
                 if len(hit) > 3 and hit[3]:
                     def fix(q):
                         q = dict(q)
